@@ -133,6 +133,7 @@ type GenOpts struct {
 	AllowDupKeys    bool // do not remove fan-ins whose sources carry equal map keys
 	AllowMissingKey bool // nested workflows may map a key their input lacks
 	ForceLoop       bool // Pregel: guarantee a cycle that the branch scripts keep taking
+	TopState        bool // the top-level plan always has state
 }
 
 type gen struct {
@@ -144,10 +145,10 @@ type gen struct {
 func Generate(t *kernel.Tape, o GenOpts) *Plan {
 	g := &gen{t: t, o: o}
 	mode := o.Modes[t.Plan(len(o.Modes))]
-	return g.plan("", "", mode, 0)
+	return g.plan("", "", mode, 0, false)
 }
 
-func (g *gen) plan(name, prefix string, mode, depth int) *Plan {
+func (g *gen) plan(name, prefix string, mode, depth int, stateAvail bool) *Plan {
 	t := g.t
 	p := &Plan{Name: name, Prefix: prefix, Mode: mode, Depth: depth, Static: map[string]string{}}
 	maxN := g.o.MaxNodes
@@ -158,16 +159,17 @@ func (g *gen) plan(name, prefix string, mode, depth int) *Plan {
 	if g.o.Parallelism && n < 3 {
 		n = 3
 	}
-	if t.PlanBool(g.o.State) {
+	if t.PlanBool(g.o.State) || (depth == 0 && g.o.TopState) {
 		p.State = true
 	}
+	stateAvail = stateAvail || p.State
 	for i := 0; i < n; i++ {
 		nd := &Node{Key: prefix + string(rune('a'+i)), FailAt: -1}
 		switch {
 		case depth < g.o.Depth && t.PlanBool(18):
 			nd.Kind = KSub
 			sm := g.o.Modes[t.Plan(len(g.o.Modes))]
-			nd.Sub = g.plan(nd.Key, nd.Key+"_", sm, depth+1)
+			nd.Sub = g.plan(nd.Key, nd.Key+"_", sm, depth+1, stateAvail)
 			if t.PlanBool(50) {
 				nd.OutKey = nd.Key
 			}
@@ -191,8 +193,8 @@ func (g *gen) plan(name, prefix string, mode, depth int) *Plan {
 				nd.Pre, nd.Post = HNone, HNone
 			}
 		}
-		if p.State && nd.Kind == KLambda && t.PlanBool(50) {
-			nd.UseState = true
+		if stateAvail && nd.Kind == KLambda && t.PlanBool(50) {
+			nd.UseState = true // ProcessState on the state of the nearest stateful graph
 		}
 		p.Nodes = append(p.Nodes, nd)
 	}
